@@ -94,48 +94,86 @@ impl Report {
     /// Send all pending requests to the model and record disagreements.
     pub fn compare_with_model(&mut self, driver: &str, pending: &[Pending]) {
         let reqs: Vec<String> = pending.iter().map(|p| p.request.clone()).collect();
-        self.model_requests += reqs.len() as u64;
         match run_model(driver, &reqs) {
             Err(e) => self.model_error = Some(e),
             Ok(answers) => {
-                for (p, a) in pending.iter().zip(answers.iter()) {
-                    let canon = |x: &str| -> String {
-                        match p.level {
-                            0 | 1 => crate::wire::l1(x),
-                            3 => {
-                                // L1 on the result token, call log verbatim
-                                match x.split_once(' ') {
-                                    Some((head, rest)) => format!("{} {}", crate::wire::l1(head), rest),
-                                    None => crate::wire::l1(x),
-                                }
-                            }
-                            5 => {
-                                // AST: syntax errors compare by class, trees as JSON values
-                                if x.starts_with('E') {
-                                    "E".to_string()
-                                } else {
-                                    x.to_string()
-                                }
-                            }
-                            4 => {
-                                // JSON documents: compare as values
-                                match serde_json::from_str::<serde_json::Value>(x) {
-                                    Ok(v) => v.to_string(),
-                                    Err(_) => x.to_string(),
-                                }
-                            }
-                            _ => x.to_string(),
+                self.model_requests += reqs.len() as u64;
+                self.compare_answers(pending, &answers)
+            }
+        }
+    }
+
+    fn compare_answers(&mut self, pending: &[Pending], answers: &[String]) {
+        for (p, a) in pending.iter().zip(answers.iter()) {
+            let canon = |x: &str| -> String {
+                match p.level {
+                    0 | 1 => crate::wire::l1(x),
+                    2 => {
+                        // L1 on the result, the call log (the trailing ` L:<n> ..`) is ignored
+                        match x.rfind(" L:") {
+                            Some(i) => crate::wire::l1(&x[..i]),
+                            None => crate::wire::l1(x),
                         }
-                    };
-                    let (i, m) = (canon(&p.implementation), canon(a));
-                    if i != m && self.disagreements.len() < 200 {
-                        self.disagreements.push(Failure {
-                            input: p.input.clone(),
-                            implementation: p.implementation.clone(),
-                            expected: a.clone(),
-                            why: format!("model request: {}", p.request),
-                        });
                     }
+                    3 => {
+                        // L1 on the result token, call log verbatim
+                        match x.split_once(' ') {
+                            Some((head, rest)) => format!("{} {}", crate::wire::l1(head), rest),
+                            None => crate::wire::l1(x),
+                        }
+                    }
+                    5 => {
+                        // AST: syntax errors compare by class, trees as JSON values
+                        if x.starts_with('E') {
+                            "E".to_string()
+                        } else {
+                            x.to_string()
+                        }
+                    }
+                    4 => {
+                        // JSON documents: compare as values
+                        match serde_json::from_str::<serde_json::Value>(x) {
+                            Ok(v) => v.to_string(),
+                            Err(_) => x.to_string(),
+                        }
+                    }
+                    _ => x.to_string(),
+                }
+            };
+            let (i, m) = (canon(&p.implementation), canon(a));
+            if i != m && self.disagreements.len() < 200 {
+                self.disagreements.push(Failure {
+                    input: p.input.clone(),
+                    implementation: p.implementation.clone(),
+                    expected: a.clone(),
+                    why: format!("model request: {}", p.request),
+                });
+            }
+        }
+    }
+
+    /// Like `compare_with_model`, with the requests spread over `n` driver processes.
+    pub fn compare_with_model_par(&mut self, driver: &str, pending: &[Pending], n: usize) {
+        if pending.len() < 2000 || n <= 1 {
+            return self.compare_with_model(driver, pending);
+        }
+        let chunk = (pending.len() + n - 1) / n;
+        let answers: Vec<Result<Vec<String>, String>> = std::thread::scope(|sc| {
+            let hs: Vec<_> = pending
+                .chunks(chunk)
+                .map(|c| {
+                    let reqs: Vec<String> = c.iter().map(|p| p.request.clone()).collect();
+                    sc.spawn(move || run_model(driver, &reqs))
+                })
+                .collect();
+            hs.into_iter().map(|h| h.join().unwrap_or_else(|_| Err("model thread panicked".to_string()))).collect()
+        });
+        for (c, a) in pending.chunks(chunk).zip(answers.into_iter()) {
+            match a {
+                Err(e) => self.model_error = Some(e),
+                Ok(lines) => {
+                    self.model_requests += c.len() as u64;
+                    self.compare_answers(c, &lines)
                 }
             }
         }
